@@ -35,6 +35,9 @@ CLAIMED = {
  "C10": ("in-process", "fault_enumeration", "enumeration of truncation offsets and single-byte alterations of real logs produced by generated histories; differential against independent decoder",
          "Logs written by generated histories are truncated at (nearly) every offset and altered byte-wise in checksum/payload fields; open must fail or yield exactly the longest-undamaged-prefix state; never panic.",
          "Quick tier samples offsets away from record boundaries; thorough enumerates all."),
+ "C11": ("race plans", "exploration", "generated race plans over threads and processes with a monotonic-clock interval oracle; traced loser under the LD_PRELOAD shim; kill/clone scenarios",
+         "Contending opens from threads and processes at generated offsets: outcomes must be Ok or AlreadyOpened and holding intervals disjoint; a traced losing open must not perform a successful mutating call except opening LOCK and must leave the directory identical; clones/OrphanStats keep the directory owned; drop or SIGKILL releases it.",
+         "Timings are not controlled (stress-style search with a sound oracle); a fork/exec artefact of the multi-threaded harness is absorbed by retrying 'must succeed' opens for at most 300 ms."),
  "C12": ("E1+E2", "exploration", "model-based: refcounts/stats/sizes vs model after every step and reopen; internal consistency after every crash recovery",
          "known_blobs, contains_blob_hash, stats.cas, item sizes are compared with values derived from the model after every step and reopen, and with the recovered map after recovery of every kill image.",
          "Built with overflow checks so counter underflow panics."),
